@@ -4,7 +4,7 @@ use crate::rng::Rng;
 use helgoboss_midi::*;
 
 /// Runs a history (4 integers per operation) on a scanner, appending 3 integers per operation.
-fn run_ops(sc: &mut ControlChange14BitMessageScanner, ops: &[i64], obs: &mut Vec<i64>) -> bool {
+pub fn run_ops(sc: &mut ControlChange14BitMessageScanner, ops: &[i64], obs: &mut Vec<i64>) -> bool {
     for op in ops.chunks(4) {
         if op.len() < 4 {
             break;
